@@ -136,6 +136,10 @@ def run(ctx):
         ctx.inst('N3', 'color_profile field', not readers, 'ParseInfo.color_profile is read at %s (must be nowhere)' % readers[:3], None,
                  key='crate|N3|color_profile-readers')
 
+    common.rejection_inventory(ctx, 'N3')
+    import C01 as _c01f
+    _c01f.framing_rejections(ctx, 'N3')             # a payload-less (ignorable) chunk is a chunk (seed C07-m)
+    common.arm_state_independence(ctx, 'N3')      # where a writer puts a chunk relative to chunks of other kinds does not matter
     # ---------- N4 chunk count selection
     chunk_count_selection(ctx, 'N4', bindings)
     # .. and the frame's own duration field is what Frame::duration reports, whatever the deprecated header `speed` holds
